@@ -104,6 +104,51 @@
 (check-sat)
 (pop)
 
-; (The third sentence of C15 - "any IRI the chain accepts re-encodes to the identical string" - needs the
-;  extensionality of the byte-string code under a shifted window; neither z3 nor cvc5 closes that
-;  lemma within 60 s, so it is not claimed: see DESIGN.md, C15.)
+; ---- third sentence: any IRI ParseIRI accepts re-encodes to the identical string ----
+; further assumed facts (exercised by the conformance run conf_data):
+; A1x extensionality of the byte-string code, with an explicit witness for the first difference
+(declare-fun bdiff ((Array Int Int) (Array Int Int) Int) Int)
+(assert (forall ((x (Array Int Int)) (y (Array Int Int)) (n Int))
+  (! (or (= (bcode x 0 n) (bcode y 0 n))
+         (and (<= 0 (bdiff x y n)) (< (bdiff x y n) n) (not (= (select x (bdiff x y n)) (select y (bdiff x y n))))))
+     :pattern ((bcode x 0 n) (bcode y 0 n)))))
+; A2b base58check is canonical: re-encoding what CheckDecode returned gives the string back (CheckDecode contract)
+(assert (forall ((t Int)) (! (=> (b58valid t) (= (b58 (b58.code t) (b58.ver t)) t)) :pattern ((b58.code t)))))
+; A6 a string with the prefix "regen:" is that prefix followed by the rest
+(assert (forall ((t Int)) (! (=> (strprefix REGEN t) (= t (strcat REGEN (substr t 6 (strlen t))))) :pattern ((strprefix REGEN t)))))
+; A7 a string that splits at "." into exactly two parts is  part0 ++ "." ++ part1
+(assert (forall ((t Int)) (! (=> (= (splitn t DOT) 2) (= t (strcat (splitpart t DOT 0) (strcat DOT (splitpart t DOT 1))))) :pattern ((splitn t DOT)))))
+
+(declare-const q Int)                                   ; any string given to the parser
+(declare-const qd (Array Int Int)) (declare-const qdlen Int)   ; the bytes CheckDecode returned
+(define-fun qrest () Int (substr q 6 (strlen q)))
+(define-fun qhash () Int (splitpart qrest DOT 0))
+(define-fun qext () Int (splitpart qrest DOT 1))
+(define-fun accepted () Bool                            ; [C15.parse.shape] for a successful ParseIRI(q)
+  (and (not (= q 0)) (strprefix REGEN q) (= (splitn qrest DOT) 2) (b58valid qhash) (= (b58.ver qhash) 0) (= (bcode qd 0 qdlen) (b58.code qhash))))
+
+(push)
+(echo "lemma C15.raw.reencode: an accepted IRI of a raw hash re-encodes to the identical string")
+(declare-const s.alg Int) (declare-const s.hlen Int) (declare-const s.h (Array Int Int)) (declare-const s.ext Int) (declare-const ps (Array Int Int))
+(assert accepted)
+; [C15.parse.raw]: the returned raw hash is exactly the decoded bytes
+(assert (and (>= qdlen 2) (= (select qd 0) 0) (= s.alg (select qd 1)) (= s.ext qext) (= s.hlen (- qdlen 2))
+             (forall ((j Int)) (! (=> (and (<= 0 j) (< j (- qdlen 2))) (= (select s.h j) (select qd (+ j 2)))) :pattern ((select s.h j))))))
+; [C15.parse.valid.raw] makes ToIRI succeed; [C15.raw.payload] in un-shifted form, [C15.raw.string]
+(assert (and (= (select ps 0) 0) (= (select ps 1) s.alg)
+             (forall ((i Int)) (! (=> (and (<= 2 i) (< i (+ s.hlen 2))) (= (select ps i) (select s.h (- i 2)))) :pattern ((select ps i))))))
+(assert (not (= (rawIri ps s.hlen s.ext) q)))
+(check-sat)
+(pop)
+
+(push)
+(echo "lemma C15.graph.reencode: an accepted IRI of a graph hash re-encodes to the identical string")
+(declare-const g.alg Int) (declare-const g.c14n Int) (declare-const g.mt Int) (declare-const g.hlen Int) (declare-const g.h (Array Int Int)) (declare-const pg (Array Int Int))
+(assert accepted)
+(assert (and (>= qdlen 4) (= (select qd 0) 1) (= qext RDF) (= g.c14n (select qd 1)) (= g.mt (select qd 2)) (= g.alg (select qd 3)) (= g.hlen (- qdlen 4))
+             (forall ((j Int)) (! (=> (and (<= 0 j) (< j (- qdlen 4))) (= (select g.h j) (select qd (+ j 4)))) :pattern ((select g.h j))))))
+(assert (and (= (select pg 0) 1) (= (select pg 1) g.c14n) (= (select pg 2) g.mt) (= (select pg 3) g.alg)
+             (forall ((i Int)) (! (=> (and (<= 4 i) (< i (+ g.hlen 4))) (= (select pg i) (select g.h (- i 4)))) :pattern ((select pg i))))))
+(assert (not (= (graphIri pg g.hlen) q)))
+(check-sat)
+(pop)
